@@ -687,6 +687,14 @@ def emit_fn(d, unit, report, canaries):
     for r in rules:
         if r in RULES_BODY:
             body = RULES_BODY[r](body, counts)
+    for name, argstr, text in d.sections:
+        if name == 'ascribe':
+            # R12: add a type annotation to a `let` (needed when ghost code mentions the variable before Rust infers its type)
+            var, ty = argstr.split(None, 1)
+            body, n = re.subn(r'\blet(\s+mut)?\s+%s\s*=' % re.escape(var), lambda m: 'let%s %s: %s =' % (m.group(1) or '', var, ty), body, count=1)
+            if n != 1:
+                raise ExtractError('lost anchor: %s ascribe %s' % (fname, var))
+            counts['R12'] = counts.get('R12', 0) + 1
     n_builtin = count_builtin(body)
     body = weave_body(body, d, fname)
     entry['rules'] = counts
